@@ -847,6 +847,16 @@ def _eigvals(fr, args, kwargs):
     l0, l1 = c.fresh_real("eig"), c.fresh_real("eig")
     nan = sym.Or_(a00.nan, a01.nan, a11.nan)
     c.fact(z3.Implies(z3.Not(sym.zb(nan)), z3.And(l0 + l1 == a00.v + a11.v, l0 * l1 == a00.v * a11.v - a01.v * a10.v)), heavy=True)
+    # consequences of trace and determinant, stated so that users of the spread and the sum need no nonlinear search:
+    # (l0 - l1)^2 = (l0 + l1)^2 - 4 l0 l1 = (a - d)^2 + 4 b c  (an algebraic identity, checked once as a stand-alone lemma)
+    from . import lemmas as L
+    A_, D_, B_, C_, P_, Q_ = [z3.Real(n) for n in ("ev_a", "ev_d", "ev_b", "ev_c", "ev_p", "ev_q")]
+    inst = L.universal("p + q = a + d, p q = a d - b c  =>  (p - q)^2 = (a - d)^2 + 4 b c", [A_, D_, B_, C_, P_, Q_],
+                       z3.Implies(z3.And(P_ + Q_ == A_ + D_, P_ * Q_ == A_ * D_ - B_ * C_),
+                                  (P_ - Q_) * (P_ - Q_) == (A_ - D_) * (A_ - D_) + 4 * B_ * C_))
+    sa, sd, sb, sc_ = [c.fresh_real(n) for n in ("cov_a", "cov_d", "cov_b", "cov_c")]
+    c.fact(z3.And(sa == a00.v, sd == a11.v, sb == a01.v, sc_ == a10.v), heavy=True)
+    c.fact(z3.Implies(z3.Not(sym.zb(nan)), z3.And(l0 + l1 == sa + sd, (l0 - l1) * (l0 - l1) == (sa - sd) * (sa - sd) + 4 * sb * sc_)), heavy=True)
     return N.asarray([F(nan, l0), F(nan, l1)])
 
 
